@@ -1,6 +1,6 @@
 (* C19: child isolation, atomicity of TransactionGroup, and what an accepted group leaves
    behind (model/EvalGroup.v). *)
-From Coq Require Import NArith List Bool Lia ZifyN ZifyBool.
+From Coq Require Import NArith PeanoNat List Bool Lia ZifyN ZifyBool.
 From Verif.model Require Import Overflow EvalCow EvalApply EvalGroup.
 From Verif.proofs Require Import EvalCowProofs.
 Import ListNotations.
@@ -300,3 +300,133 @@ Proof.
   unfold commit. rewrite Hp. cbn [c_top c_parents c_base merge_layer l_txids].
   rewrite Ht. repeat split; auto.
 Qed.
+
+(* ------------------------------------------------------------------ panics and corruptedState *)
+Lemma tgp_none E ev g lf : transaction_group_p E ev g lf None = transaction_group E ev g lf.
+Proof.
+  unfold transaction_group_p, transaction_group. destruct (ev_corrupt ev); [reflexivity|].
+  destruct g; [reflexivity|]. destruct (p_maxgroup (e_P E) <? _); reflexivity.
+Qed.
+
+Lemma loop_prefix_same_below E g i c :
+  same_below c (fst ((when (e_validate E) (guard (forallb t_wf g) E_WF) ;;;
+                      group_loop E (first_grp g) (1 <? N.of_nat (length g)) (firstn i g)) c)).
+Proof.
+  apply (keeps_bind same_below same_below_trans).
+  - apply (keeps_when same_below same_below_refl). apply (keeps_guard same_below same_below_refl).
+  - intro. apply (keeps_group_loop same_below); sb_all.
+Qed.
+
+Lemma evalst_eta ev : mkEval (ev_cow ev) (ev_payset ev) (ev_corrupt ev) = ev.
+Proof. destruct ev; reflexivity. Qed.
+
+(* a panic before the commit point -- in any transaction of the loop -- is a clean rejection:
+   the evaluator is exactly as before and stays usable *)
+Theorem panic_before_commit_clean E ev g lf i :
+  ev_corrupt ev = false -> g <> [] -> (i < length g)%nat ->
+  exists e, transaction_group_p E ev g lf (Some (PLoop i)) = (ev, Err e).
+Proof.
+  intros Hc Hne Hi. unfold transaction_group_p. rewrite Hc.
+  destruct g as [|tx g']; [contradiction|].
+  destruct (p_maxgroup (e_P E) <? N.of_nat (length (tx :: g'))); [eexists; reflexivity|].
+  apply Nat.ltb_lt in Hi. rewrite Hi.
+  pose proof (loop_prefix_same_below E (tx :: g') i (child (ev_cow ev))) as Hs.
+  destruct ((when (e_validate E) (guard (forallb t_wf (tx :: g')) E_WF) ;;;
+             group_loop E (first_grp (tx :: g')) (1 <? N.of_nat (length (tx :: g'))) (firstn i (tx :: g'))) (child (ev_cow ev)))
+    as [c1 [u|e]]; cbn [fst] in Hs; rewrite (recycle_of_child _ _ Hs), <- Hc, evalst_eta; eexists; reflexivity.
+Qed.
+
+(* a panic from the commit point on: either the group had already failed before reaching it
+   (clean, as always), or the evaluator is marked corrupted *)
+Theorem panic_marks_corrupted E ev g lf k ev' r :
+  transaction_group_p E ev g lf (Some (PCommit k)) = (ev', r) ->
+  (exists e, r = Err e /\ ev' = ev) \/ r = Ok tt /\ g = [] /\ ev' = ev \/ (r = Err E_PANIC /\ ev_corrupt ev' = true).
+Proof.
+  unfold transaction_group_p. destruct (ev_corrupt ev) eqn:Hc.
+  { intros H. inversion H. left. eauto. }
+  destruct g as [|tx g']. { intros H. inversion H. right. left. auto. }
+  destruct (p_maxgroup (e_P E) <? N.of_nat (length (tx :: g'))). { intros H. inversion H. left. eauto. }
+  pose proof (group_body_same_below E (tx :: g') lf (child (ev_cow ev))) as Hs.
+  destruct (group_body E (tx :: g') lf (child (ev_cow ev))) as [c1 [u|e]]; cbn [fst] in Hs; intros H; inversion H.
+  - right. right. auto.
+  - left. exists e. split; [reflexivity|]. rewrite (recycle_of_child _ _ Hs), <- Hc. apply evalst_eta.
+Qed.
+
+(* a corrupted evaluator refuses everything and changes nothing *)
+Theorem corrupted_refuses E ev :
+  ev_corrupt ev = true ->
+  (forall g lf pp, transaction_group_p E ev g lf pp = (ev, Err E_CORRUPT)) /\
+  (forall g lf, transaction_group E ev g lf = (ev, Err E_CORRUPT)) /\
+  (forall expired absent, generate_block E ev expired absent = Err E_CORRUPT).
+Proof.
+  intros Hc. repeat split; intros.
+  - unfold transaction_group_p. now rewrite Hc.
+  - unfold transaction_group. now rewrite Hc.
+  - unfold generate_block. now rewrite Hc.
+Qed.
+
+(* every call, whatever panics: it either applies the whole group (and equals the panic-free
+   call), or leaves the evaluator untouched, or leaves it corrupted *)
+Theorem tgp_trichotomy E ev g lf pp ev' r :
+  transaction_group_p E ev g lf pp = (ev', r) ->
+  (r = Ok tt /\ transaction_group E ev g lf = (ev', Ok tt)) \/
+  (exists e, r = Err e /\ ev' = ev) \/
+  (r = Err E_PANIC /\ ev_corrupt ev' = true).
+Proof.
+  intros H. destruct pp as [[i|k]|].
+  - destruct (ev_corrupt ev) eqn:Hc.
+    { unfold transaction_group_p in H. rewrite Hc in H. inversion H. right. left. eauto. }
+    destruct g as [|tx g'].
+    { unfold transaction_group_p in H. rewrite Hc in H. inversion H. subst. left. split; [reflexivity|].
+      unfold transaction_group. now rewrite Hc. }
+    destruct (Nat.ltb i (length (tx :: g'))) eqn:Hi.
+    + apply Nat.ltb_lt in Hi.
+      destruct (panic_before_commit_clean E ev (tx :: g') lf i Hc ltac:(discriminate) Hi) as [e He].
+      rewrite He in H. inversion H. right. left. eauto.
+    + unfold transaction_group_p in H. rewrite Hc, Hi in H.
+      destruct (p_maxgroup (e_P E) <? N.of_nat (length (tx :: g'))) eqn:Hsz.
+      { inversion H. right. left. eauto. }
+      destruct r as [[]|e].
+      * left. auto.
+      * right. left. exists e. split; [reflexivity|]. eapply group_atomic; eauto.
+  - destruct (panic_marks_corrupted _ _ _ _ _ _ _ H) as [(e & -> & ->)|[(-> & -> & ->)|[-> Hc]]].
+    + right. left. eauto.
+    + left. split; [reflexivity|]. unfold transaction_group_p in H. unfold transaction_group.
+      destruct (ev_corrupt ev); [discriminate | reflexivity].
+    + right. right. auto.
+  - rewrite tgp_none in H. destruct r as [[]|e].
+    + left. auto.
+    + right. left. exists e. split; [reflexivity|]. eapply group_atomic; eauto.
+Qed.
+
+(* once corrupted, always corrupted, and frozen *)
+Lemma run_calls_corrupted E ev calls : ev_corrupt ev = true -> run_calls E ev calls = ev.
+Proof.
+  intros Hc. induction calls as [|[[g lf] pp] r IH]; cbn [run_calls]; [reflexivity|].
+  destruct (corrupted_refuses E ev Hc) as [H _]. rewrite H. exact IH.
+Qed.
+
+(* the evaluator states reachable by whole, accepted groups only *)
+Inductive whole (E : env) (ev0 : evalst) : evalst -> Prop :=
+| whole_refl : whole E ev0 ev0
+| whole_step : forall ev g lf ev', whole E ev0 ev -> transaction_group E ev g lf = (ev', Ok tt) -> whole E ev0 ev'.
+
+(* no block with a half-applied group: after ANY sequence of TransactionGroup calls with ANY
+   panics, an evaluator that is not marked corrupted (the only kind GenerateBlock accepts) is in
+   a state reached by whole accepted groups *)
+Theorem uncorrupted_means_whole_groups E ev0 calls :
+  ev_corrupt (run_calls E ev0 calls) = false -> whole E ev0 (run_calls E ev0 calls).
+Proof.
+  assert (G : forall ev, whole E ev0 ev -> ev_corrupt (run_calls E ev calls) = false -> whole E ev0 (run_calls E ev calls)).
+  { induction calls as [|[[g lf] pp] r IH]; intros ev Hw Hc; cbn [run_calls] in *; [exact Hw|].
+    destruct (transaction_group_p E ev g lf pp) as [ev' res] eqn:Ht. cbn [fst] in *.
+    destruct (tgp_trichotomy _ _ _ _ _ _ _ Ht) as [[_ Hok]|[(e & _ & ->)|[_ Hcor]]].
+    - apply IH; [|exact Hc]. eapply whole_step; eauto.
+    - apply IH; assumption.
+    - rewrite (run_calls_corrupted E ev' r Hcor) in Hc. congruence. }
+  apply G. constructor.
+Qed.
+
+Theorem generate_needs_uncorrupted E ev expired absent ev' :
+  generate_block E ev expired absent = Ok ev' -> ev_corrupt ev = false.
+Proof. unfold generate_block. destruct (ev_corrupt ev); [discriminate | reflexivity]. Qed.
